@@ -234,6 +234,9 @@ func (w *worldA) checkTrace(tm *traceModel) {
 	for _, sr := range accepted {
 		if first.kept && len(sr.fwd) == 0 {
 			out.Violate("C02", "kept_span_not_forwarded", siteCollect, "trace#%d was kept (step %d) but its accepted span %s (late=%v) was never handed to the transmission", tm.idx, first.step, sr.spanID, sr.late)
+			if first.sendReason == collect.TraceSendEjectedMemsize && !sr.late {
+				out.Violate("C07", "ejected_kept_trace_not_forwarded", siteCollect, "trace#%d was ejected for memory and kept (step %d) but its span %s was never handed to the transmission", tm.idx, first.step, sr.spanID)
+			}
 		}
 		if !first.kept && len(sr.fwd) > 0 {
 			out.Violate("C02", "dropped_span_forwarded", siteCollect, "trace#%d was dropped (step %d) but span %s (late=%v) was forwarded", tm.idx, first.step, sr.spanID, sr.late)
